@@ -12,7 +12,7 @@
    lemmas [reported_sites_present] / [carried_live_is_carried] fail as soon as one of them disappears
    from the code (delete the entry then).  *)
 From Coq Require Import String Ascii List Bool ZArith.
-From AC.gen Require Import StateFields StoreSites.
+From AC.gen Require Import StateFields StoreSites OrderSources.
 Import ListNotations.
 Local Open Scope string_scope.
 
@@ -576,3 +576,18 @@ Lemma table_sizes :
   (60 <=? length state_fields)%nat = true /\ (40 <=? length reset_fields)%nat = true /\
   length store_sites = store_site_count /\ (500 <=? length store_sites)%nat = true.
 Proof. vm_compute. repeat split; reflexivity. Qed.
+
+(* ------------------------------------------------------------------------------------------------------------ *)
+(* C10 (hash seed / process / environment): the ONLY constructs in the whole package whose value or iteration order can
+   depend on the hash seed, the process, the clock or the environment are the five listed ones — the wall-clock timers of
+   run_model (reported as execution time only), two set displays used for membership tests only (`k in allowed_keys`,
+   never iterated), the import-time `os.getenv("DEVELOPMENT")` that selects between two imports of the same module, and
+   the data-file listing helper.  A new set()/hash()/id()/random/... anywhere in /repo changes the regenerated table and
+   breaks this theorem. *)
+Theorem order_sources_exact :
+  order_sources = [ ("aquacrop.core", "AquaCropModel.run_model", "time");
+                    ("aquacrop.entities.crop", "Crop.__init__", "set-display");
+                    ("aquacrop.entities.irrigationManagement", "IrrigationManagement.__init__", "set-display");
+                    ("aquacrop.solution.irrigation", "<module>", "os.getenv");
+                    ("aquacrop.utils.data", "list_data", "os.listdir") ]%string.
+Proof. vm_compute. reflexivity. Qed.
